@@ -95,6 +95,12 @@ def _replay(chunk):
         st = mach.seed(seed)
         step_viol = None
         try:
+            if mach.step_invariant is not None:
+                # the exploration judged the seed state too (queries may leave traces)
+                try:
+                    mach.step_invariant(st)
+                except Violation as v:
+                    step_viol = (v.what, v.detail)
             for a in trace:
                 mach.apply(st, a, check=False)
                 if mach.step_invariant is not None and step_viol is None:
